@@ -91,6 +91,8 @@ def build_kernel(kname, spec, variant='plain'):
     stubs = getattr(spec, 'STUBS', [])
     if stubs:
         cmd += ['--stub', ','.join(stubs)]
+    if getattr(spec, 'TRAP', None):
+        cmd += ['--trap', spec.TRAP]
     r = sh(cmd, timeout=600)
     if r['rc'] != 0:
         raise Broken('irc failed for %s/%s:\n%s' % (kname, variant, (r['err'] + r['out'])[-3000:]))
@@ -286,7 +288,7 @@ def run_cbmc(job, info, witness=False):
 _replay_built = {}
 _replay_lock = threading.Lock()
 SHIM_RP_FLAGS = ['-std=c++17', '-O1', '-g', '-fno-exceptions', '-fno-rtti', '-fno-access-control', '-fsanitize=address,undefined',
-                 '-fno-sanitize-recover=all', '-fno-omit-frame-pointer', '-I' + INC, '-I' + ENGINE, '-DJSONCONS_VERIF', '-D_GLIBCXX_ASSERTIONS', '-w']
+                 '-fno-sanitize-recover=all', '-fno-omit-frame-pointer', '-I' + INC, '-I' + ENGINE, '-DJSONCONS_VERIF', '-D_GLIBCXX_ASSERTIONS', '-DIRC_REPLAY', '-w']
 
 
 def build_replay(kname, harness_file, defs):
@@ -361,7 +363,7 @@ def load_known():
 def check_property(pid, tier, seed, only_kernel=None, only_job=None, keep=False, verbose=True):
     global BUILD
     t0 = time.time()
-    BUILD = os.path.join(BUILD_ROOT, '%s-%s%s' % (pid, tier, ('-' + only_kernel) if only_kernel else ''))
+    BUILD = os.path.join(BUILD_ROOT, '%s-%s%s%s' % (pid, tier, ('-' + only_kernel) if only_kernel else '', os.environ.get('VERIF_BUILD_TAG', '')))
     shutil.rmtree(BUILD, ignore_errors=True)
     os.makedirs(BUILD, exist_ok=True)
     _replay_built.clear()
@@ -497,7 +499,7 @@ def check_property(pid, tier, seed, only_kernel=None, only_job=None, keep=False,
     vio_lines = []
     for v in violations:
         h = hashlib.sha1(json.dumps(v['inputs'], sort_keys=True).encode() + v['harness'].encode()).hexdigest()[:12]
-        d = os.path.join(ROOT, 'replays', pid)
+        d = os.path.join(os.environ.get('VERIF_REPLAY_DIR') or os.path.join(ROOT, 'replays'), pid)
         os.makedirs(d, exist_ok=True)
         path = os.path.join(d, h + '.json')
         json.dump(v, open(path, 'w'), indent=1)
@@ -533,8 +535,10 @@ def check_property(pid, tier, seed, only_kernel=None, only_job=None, keep=False,
         wall_s=round(time.time() - t0, 1),
         violations=len(violations),
     )
-    os.makedirs(os.path.join(ROOT, 'evidence'), exist_ok=True)
-    json.dump(ev, open(os.path.join(ROOT, 'evidence', pid + '.json'), 'w'), indent=1)
+    evdir = os.environ.get('VERIF_EVIDENCE_DIR') or os.path.join(ROOT, 'evidence')   # seeded-mutation runs (tools/seedrun.py) write elsewhere
+    os.makedirs(evdir, exist_ok=True)
+    if not (only_kernel or only_job) or os.environ.get('VERIF_EVIDENCE_DIR'):
+        json.dump(ev, open(os.path.join(evdir, pid + '.json'), 'w'), indent=1)
     if not keep:
         shutil.rmtree(BUILD, ignore_errors=True)
     for l in vio_lines:
